@@ -155,7 +155,8 @@ class ContextRecorder:
             return
         env = template.env
         lim = lambda v: -1 if v is None else int(v)
-        self.cur = {"N": lim(env.loop_iteration_limit), "L": lim(env.output_stream_limit), "mode": env.mode.name.lower(),
+        self.cur = {"N": lim(env.loop_iteration_limit), "L": lim(env.output_stream_limit), "M": lim(env.local_namespace_limit),
+                    "D": lim(env.context_depth_limit), "mode": env.mode.name.lower(),
                     "label": self.label, "ev": [], "_ctx": {}, "_buf": {}, "_owner": self._owner(), "_mixed": False}
 
     def end(self, status):
@@ -196,7 +197,7 @@ def install_context(rec: ContextRecorder) -> None:
     from liquid.template import BoundTemplate
     from liquid.output import LimitedStringIO
     from liquid.environment import Environment
-    from liquid.exceptions import LoopIterationLimitError, OutputStreamLimitError
+    from liquid.exceptions import LoopIterationLimitError, OutputStreamLimitError, ContextDepthError, LocalNamespaceLimitError
 
     def mk_render(orig):
         def f(self, *a, **k):
@@ -237,13 +238,24 @@ def install_context(rec: ContextRecorder) -> None:
             ctx = orig(self, namespace, disabled_tags=disabled_tags, carry_loop_iterations=carry_loop_iterations, template=template, block_scope=block_scope)
             if rec.cur is not None:
                 rec.ev("Copy", c=rec.cid(ctx), p=rec.cid(self), f=carry_loop_iterations, n=ctx.loop_iteration_carry)
+                rec.ev("CopyDepth", c=rec.cid(ctx), p=rec.cid(self), n=ctx._copy_depth)
+                if self.env.local_namespace_limit is not None:
+                    rec.ev("CopyNs", c=rec.cid(ctx), p=rec.cid(self), n=ctx.local_namespace_size_carry)
             return ctx
         return f
 
     def mk_extend(orig):
         @contextlib.contextmanager
         def f(self, namespace, template=None):
-            with orig(self, namespace, template=template) as c:
+            before = self.scope.size()
+            cm = orig(self, namespace, template=template)
+            try:
+                c = cm.__enter__()
+            except ContextDepthError:
+                if rec.cur is not None:
+                    rec.ev("PushRefused", c=rec.cid(self), n=before)
+                raise
+            with _entered(cm, c):
                 if rec.cur is not None:
                     rec.ev("Push", c=rec.cid(self), n=self.scope.size())
                 try:
@@ -252,6 +264,35 @@ def install_context(rec: ContextRecorder) -> None:
                     if rec.cur is not None:
                         rec.ev("Pop", c=rec.cid(self), n=self.scope.size() - 1)
         return f
+
+    def mk_assign(orig):
+        def f(self, key, val):
+            import sys as _sys
+            try:
+                orig(self, key, val)
+            except LocalNamespaceLimitError:
+                if rec.cur is not None:
+                    rec.ev("Assign", c=rec.cid(self), n=_measure(self), o="raise")
+                raise
+            if rec.cur is not None and self.env.local_namespace_limit is not None:
+                rec.ev("Assign", c=rec.cid(self), n=_measure(self), o="ok")
+        return f
+
+    def _measure(ctx):
+        """what the property talks about, measured independently of get_size_of_locals: sizes of this context's locals"""
+        import sys as _sys
+        return sum(_sys.getsizeof(v, 1) for v in ctx.locals.values())
+
+    class _entered:
+        """context manager around an already entered context manager"""
+        def __init__(self, cm, val):
+            self.cm, self.val = cm, val
+
+        def __enter__(self):
+            return self.val
+
+        def __exit__(self, *exc):
+            return self.cm.__exit__(*exc)
 
     def mk_loop(orig):
         @contextlib.contextmanager
@@ -345,6 +386,7 @@ def install_context(rec: ContextRecorder) -> None:
     wrap(RenderContext, "__init__", mk_init)
     wrap(RenderContext, "copy", mk_copy)
     wrap(RenderContext, "extend", mk_extend)
+    wrap(RenderContext, "assign", mk_assign)
     wrap(RenderContext, "loop", mk_loop)
     wrap(RenderContext, "carry_loop_iterations", mk_carry)
     wrap(RenderContext, "raise_for_loop_limit", mk_check)
